@@ -16,6 +16,8 @@ every calendar (`CalMono`: later days have later dates), every configuration and
 import EdzedModel.Cron
 import EdzedProofs.Cron
 import EdzedModel.Gen.Constants
+import EdzedModel.Gen.TranslatedCron
+import EdzedProofs.CronTie
 
 namespace Edzed.Cron
 
@@ -396,3 +398,340 @@ example :
   decide
 
 end Edzed.Cron
+
+/-! ## Tie by translation
+
+`Gen.TrCron.*` (lean/EdzedModel/Gen/TranslatedCron.lean) is regenerated on every run from the CURRENT Python AST
+of `Cron.add_block/remove_block/reload/_maintask`, `Flag`, `TimeDate/TimeSpan.recalc/_event_reconfig`
+(tools/py2lean_cron.py).  The theorems below say what those translated definitions are; the references they are
+compared with are written by hand (EdzedModel/Cron.lean: the alarm table and the calendar predicates;
+EdzedProofs/CronTie.lean: one pass of the scheduler loop in direct style).  The acceptance predicate of this file
+stays a SPECIFICATION of cron's timing; what is tied here is everything discrete the specification relies on. -/
+namespace Edzed.TrTie
+open Edzed.Cron Edzed.Gen.TrCron
+
+/-! ### (a) `Flag`, the alarm table -/
+
+/-- `utils.flag.Flag`: OR / test-and-clear / set / clear / truth value -/
+theorem translated_cron_flag_is_model (v o : Bool) :
+    Flag_OR v o = (v || o, v || o) ∧ Flag_test_clear v = (false, v) ∧ Flag_set v o = (o, o) ∧
+    Flag_set v = (true, true) ∧ Flag_clear v = (false, false) ∧ Flag_bool v = (v, v) := by
+  cases v <;> cases o <;> decide
+
+/-- `Cron.add_block` IS the model's `Table.add`, and asks for a reload iff the key is new and not a full hour -/
+theorem translated_cron_add_block_is_model (tz : Nat → Except Exc Nat) (compat : Nat → Bool) (tb : Table)
+    (nr : Bool) (t t' b : Nat) (hc : compat b = true) (ht : tz t = .ok t') :
+    addBlock (tabPrims tz compat) ⟨tb, nr, t, b⟩ = .ok ⟨tb.add t' b, nr || tb.addNeedsReload t', t', b⟩ :=
+  add_is_model tz compat tb nr t t' b hc ht
+
+/-- a block without `recalc` is refused with TypeError before anything is touched -/
+theorem translated_cron_add_block_refuses_incompatible (tz : Nat → Except Exc Nat) (compat : Nat → Bool)
+    (tb : Table) (nr : Bool) (t b : Nat) (hc : compat b = false) :
+    addBlock (tabPrims tz compat) ⟨tb, nr, t, b⟩ = .error .typeError :=
+  add_incompatible tz compat tb nr t b hc
+
+/-- `Cron.remove_block` IS the model's `Table.remove` -/
+theorem translated_cron_remove_block_is_model (tz : Nat → Except Exc Nat) (compat : Nat → Bool) (tb : Table)
+    (nr : Bool) (t t' b : Nat) (ht : tz t = .ok t') :
+    removeBlock (tabPrims tz compat) ⟨tb, nr, t, b⟩ =
+      .ok ⟨tb.remove t' b, nr || tb.removeNeedsReload t' b, t', b⟩ :=
+  remove_is_model tz compat tb nr t t' b ht
+
+/-- `Cron.reload`: the request flag is consumed; the task is woken iff a reload was requested and it runs -/
+theorem translated_cron_reload_is_model (nr running wake : Bool) :
+    reload ⟨nr, running, wake⟩ = .ok ⟨false, running, wake || (nr && running)⟩ :=
+  reload_is_model nr running wake
+
+/-- one call of the TRANSLATED methods on (table, reload flag); times are naive, blocks have `recalc` -/
+def trCall (st : Table × Bool) (op : TOp) : Table × Bool :=
+  match op with
+  | .add t b =>
+    match addBlock (tabPrims .ok (fun _ => true)) ⟨st.1, st.2, t, b⟩ with
+    | .ok L => (L.alarms, L.needs_reload)
+    | .error _ => st
+  | .remove t b =>
+    match removeBlock (tabPrims .ok (fun _ => true)) ⟨st.1, st.2, t, b⟩ with
+    | .ok L => (L.alarms, L.needs_reload)
+    | .error _ => st
+
+theorem trCall_table (st : Table × Bool) (op : TOp) : (trCall st op).1 = op.apply st.1 := by
+  cases op with
+  | add t b => simp [trCall, add_is_model (t' := t), TOp.apply]
+  | remove t b => simp [trCall, remove_is_model (t' := t), TOp.apply]
+
+theorem trCall_foldl_table (ops : List TOp) (st : Table × Bool) :
+    (ops.foldl trCall st).1 = ops.foldl TOp.apply st.1 := by
+  induction ops generalizing st with
+  | nil => rfl
+  | cons op ops ih => simp only [List.foldl_cons]; rw [ih, trCall_table]
+
+/-- after ANY sequence of add_block / remove_block calls the set registered at each time is exactly the blocks
+    whose last call for that time was an `add_block` (untouched pairs stay as they were) -/
+theorem translated_cron_registered_after_calls (ops : List TOp) (tb : Table) (nr : Bool) (t b : Nat) :
+    (ops.foldl trCall (tb, nr)).1.registered t b = (lastOp ops t b).getD (tb.registered t b) := by
+  rw [trCall_foldl_table]; exact registered_after_ops ops tb t b
+
+/-- removing a block from a time it is not registered for changes nothing – neither table nor reload flag -/
+theorem translated_cron_remove_unregistered_changes_nothing (tb : Table) (nr : Bool) (t b : Nat)
+    (h : tb.NoEmpty) (hr : tb.registered t b = false) :
+    trCall (tb, nr) (.remove t b) = (tb, nr) := by
+  have := remove_unregistered tb t b h hr
+  simp [trCall, remove_is_model (t' := t), this.1, this.2]
+
+/-- no key ever holds an empty set -/
+theorem translated_cron_table_keeps_no_empty_set (ops : List TOp) (tb : Table) (nr : Bool) (h : tb.NoEmpty) :
+    (ops.foldl trCall (tb, nr)).1.NoEmpty := by
+  rw [trCall_foldl_table]
+  induction ops generalizing tb with
+  | nil => exact h
+  | cons op ops ih =>
+    simp only [List.foldl_cons]
+    cases op with
+    | add t b => exact ih _ (noEmpty_add tb t b h)
+    | remove t b => exact ih _ (noEmpty_remove tb t b h)
+
+/-- a reload is requested iff the set of NON-hourly keys changed: a call touches the key `t` only, and sets the
+    flag exactly when `t` is not a full hour and appeared / disappeared -/
+theorem translated_cron_reload_requested_iff_nonhourly_key_changed (tb : Table) (nr : Bool) (op : TOp) :
+    let t := match op with | .add t _ => t | .remove t _ => t
+    (∀ t', t' ≠ t → (trCall (tb, nr) op).1.isKey t' = tb.isKey t') ∧
+    (trCall (tb, nr) op).2 = (nr || (!hourly t && ((trCall (tb, nr) op).1.isKey t != tb.isKey t))) := by
+  cases op with
+  | add t b =>
+    refine ⟨fun t' ht => ?_, ?_⟩
+    · simp [trCall, add_is_model (t' := t), isKey_add, ht]
+    · simp only [trCall, add_is_model (t' := t), isKey_add, Table.addNeedsReload]
+      cases tb.isKey t <;> cases hourly t <;> cases nr <;> simp
+  | remove t b =>
+    refine ⟨fun t' ht => ?_, ?_⟩
+    · simp [trCall, remove_is_model (t' := t), isKey_remove_other _ _ _ _ ht]
+    · simp only [trCall, remove_is_model (t' := t), removeNeedsReload_iff]
+      cases h1 : tb.isKey t <;> cases h2 : (tb.remove t b).isKey t <;> cases hourly t <;> cases nr <;> simp
+      · unfold Table.remove Table.isKey at h2
+        unfold Table.isKey at h1
+        cases h3 : tb t <;> simp_all
+
+/-- the hourly keys of the model are exactly the extracted `_SET24` -/
+theorem translated_cron_hourly_is_set24 (t : Nat) :
+    hourly t = Gen.cronSet24.any (fun x => ((x.1 * 60 + x.2.1) * 60 + x.2.2.1) * 1000000 + x.2.2.2 == t) := by
+  unfold hourly usPerDay Gen.cronSet24
+  simp only [List.any_cons, List.any_nil, Bool.or_false]
+  by_cases h : t % 3600000000 = 0 ∧ t < 86400000000
+  · have : (t % 3600000000 == 0 && decide (t < 86400000000)) = true := by simp [h]
+    rw [this]
+    simp only [Bool.true_eq, Bool.or_eq_true, beq_iff_eq]
+    omega
+  · have : (t % 3600000000 == 0 && decide (t < 86400000000)) = false := by
+      cases h1 : (t % 3600000000 == 0) <;> simp_all
+    rw [this]
+    simp only [Bool.false_eq, Bool.or_eq_false_iff, beq_eq_false_iff_ne]
+    omega
+
+/-! ### (b) one pass of `Cron._maintask` -/
+
+variable {σ T DT B : Type}
+
+/-- the statements before `while True:`: the overhead estimate starts at `_TT_OK`, a reload is pending (it also
+    initialises the index), no reset, no short sleep -/
+theorem translated_cron_init_is_model [Inhabited T] [Inhabited DT] :
+    (mtInit : MtLocals T DT).overhead = ttOk ∧ (mtInit : MtLocals T DT).reload = true ∧
+    (mtInit : MtLocals T DT).reset_ = false ∧ (mtInit : MtLocals T DT).short_sleep = false ∧
+    (mtInit : MtLocals T DT).index = none := ⟨rfl, rfl, rfl, rfl, rfl⟩
+
+/-- the beginning of a pass IS `refHead`: reload → timetable rebuilt from `_SET24` ∪ the CURRENT keys, index
+    forgotten; ONE clock reading; unknown index → `bisect_left` for that reading and ALL current clients
+    recalculated with it; then `wakeup = timetable[index]` and the sleep loop -/
+theorem translated_cron_step_is_model (P : MtPrims σ T DT B) (L : MtLocals T DT) (w : σ) :
+    mtStep P L w = refHead P L w := head_is_ref P L w
+
+/-- the body of `for step in range(3)` IS `refBody` (time difference normalised to ±12 h, the check with its
+    thresholds, the four ways of sleeping) -/
+theorem translated_cron_sleep_body_is_model (P : MtPrims σ T DT B)
+    (next brk : MtLocals T DT → σ → Res (MtLocals T DT) σ) (L : MtLocals T DT) (w : σ) :
+    mtFor1Body P next brk L w = refBody P next brk L w := body_is_ref P next brk L w
+
+/-- what follows the sleep loop IS `refTail` -/
+theorem translated_cron_tail_is_model (P : MtPrims σ T DT B) (L : MtLocals T DT) (w : σ) :
+    mtAfter1 P L w = refTail P L w := tail_is_ref P L w
+
+/-- the loop itself: steps 0, 1, 2 in this order, `break` and exhaustion both lead to the tail -/
+theorem translated_cron_loop_is_model (P : MtPrims σ T DT B) (L : MtLocals T DT) (w : σ) :
+    mtFor1 P (List.range 3) L w =
+      refBody P (fun L w => refBody P (fun L w => refBody P (refTail P) (refTail P) { L with step_ := 2 } w)
+        (refTail P) { L with step_ := 1 } w) (refTail P) { L with step_ := 0 } w := by
+  have e : List.range 3 = [0, 1, 2] := by decide
+  rw [e]
+  simp only [mtFor1, body_is_ref]
+  have t : mtAfter1 P = refTail P := by funext L w; exact tail_is_ref P L w
+  simp only [t]
+
+/-- **a reset recalculates every block registered at that moment**: the client set is computed from the world as
+    it is when the reset is processed, each block gets the last reading, the index is forgotten (so that the next
+    pass re-positions it) and the pass ends -/
+theorem translated_cron_reset_recalculates_every_client (P : MtPrims σ T DT B) (L : MtLocals T DT) (w : σ)
+    (h : L.reset_ = true) :
+    mtAfter1 P L w =
+      .next { L with reset_ := false, index := none } (recalcAll P (P.allClients w) L.nowdt w) := by
+  rw [tail_is_ref]; unfold refTail; simp [h]
+
+/-- **the wake-up set is read after the sleep returned**: the blocks recalculated at an alarm are those
+    registered for `wakeup` in the world `w` in which the sleep loop ended (not one remembered from before), with
+    the reading taken after the sleep; then the index advances cyclically -/
+theorem translated_cron_wakeup_set_read_after_sleep (P : MtPrims σ T DT B) (L : MtLocals T DT) (w : σ) (i : Nat)
+    (h1 : L.reset_ = false) (h2 : L.reload = false) (h3 : L.index = some i) :
+    mtAfter1 P L w =
+      .next { L with index := some ((i + 1) % L.tlen) }
+        (if P.hasAlarm w L.wakeup then recalcAll P (P.clientsAt w L.wakeup) L.nowdt w else w) := by
+  rw [tail_is_ref]; unfold refTail; simp [h1, h2, h3]
+
+/-- a reload request that arrived during the sleep ends the pass at once: nothing is recalculated, the index
+    is kept (the next pass rebuilds the timetable) -/
+theorem translated_cron_pending_reload_ends_pass (P : MtPrims σ T DT B) (L : MtLocals T DT) (w : σ)
+    (h1 : L.reset_ = false) (h2 : L.reload = true) :
+    mtAfter1 P L w = .next L w := by
+  rw [tail_is_ref]; unfold refTail; simp [h1, h2]
+
+/-- **every key of `_alarms` and every full hour is in the timetable after a reload** (for a `sorted(a.union(b))`
+    that contains what it should), and a pass with a pending reload is a pass without one from that timetable
+    with the index forgotten -/
+theorem translated_cron_reload_rebuilds_timetable (P : MtPrims σ T DT B) (L : MtLocals T DT) (w : σ)
+    (hs : ∀ a b x, x ∈ P.sortedUnion a b ↔ x ∈ a ∨ x ∈ b) (h : L.reload = true) :
+    let tt := P.sortedUnion P.set24 (P.alarmKeys w)
+    mtStep P L w = mtStep P { L with reload := false, timetable := tt, tlen := tt.length, index := none } w ∧
+    ∀ t, (t ∈ P.set24 ∨ t ∈ P.alarmKeys w) ↔ t ∈ tt := by
+  refine ⟨?_, fun t => (hs _ _ t).symm⟩
+  rw [head_is_ref, head_is_ref]; unfold refHead; simp [h]
+
+/-- **re-positioning uses one reading**: with an unknown index (start, reload, reset) the index is
+    `bisect_left(timetable, reading) % tlen` and ALL clients registered after that clock read are recalculated
+    with the same reading before anything else happens -/
+theorem translated_cron_resync_uses_one_reading (P : MtPrims σ T DT B) (L : MtLocals T DT) (w : σ)
+    (h1 : L.reload = false) (h2 : L.index = none) :
+    mtStep P L w =
+      refWake P { L with nowdt := (P.dtnow w).1, nowt := P.timeOf (P.dtnow w).1,
+                         index := some (P.bisectLeft L.timetable (P.timeOf (P.dtnow w).1) % L.tlen) }
+        (recalcAll P (P.allClients (P.dtnow w).2) (P.dtnow w).1 (P.dtnow w).2) := by
+  rw [head_is_ref]; unfold refHead; simp [h1, h2]
+
+/-- **jump detection**: whenever the check runs (steps 1, 2, or step 0 when already late) and the clock is off by
+    more than `_TT_ERROR`, the loop is left with `reset` set and the overhead estimate untouched -/
+theorem translated_cron_jump_is_detected (P : MtPrims σ T DT B)
+    (next brk : MtLocals T DT → σ → Res (MtLocals T DT) σ) (L : MtLocals T DT) (w : σ)
+    (hc : L.step_ > 1 ∨ secondsUntil P L.wakeup L.nowt < 0)
+    (hj : ratAbs (secondsUntil P L.wakeup L.nowt) > ttError) :
+    mtFor1Body P next brk L w =
+      brk { L with sleeptime := secondsUntil P L.wakeup L.nowt,
+                   diff := ratAbs (secondsUntil P L.wakeup L.nowt), reset_ := true } w := by
+  rw [body_is_ref]; unfold refBody refCheck
+  cases hr : L.reset_ <;> simp [hc, hj, hr]
+
+/-- still early at step 2 (after the additional short sleep) is a clock problem as well -/
+theorem translated_cron_early_at_step2_resets (P : MtPrims σ T DT B)
+    (next brk : MtLocals T DT → σ → Res (MtLocals T DT) σ) (L : MtLocals T DT) (w : σ)
+    (h2 : L.step_ = 2) (he : secondsUntil P L.wakeup L.nowt > 0) :
+    mtFor1Body P next brk L w =
+      brk { L with sleeptime := secondsUntil P L.wakeup L.nowt,
+                   diff := ratAbs (secondsUntil P L.wakeup L.nowt), reset_ := true } w := by
+  rw [body_is_ref]; unfold refBody refCheck
+  cases hr : L.reset_ <;> simp [h2, he, hr]
+
+/-- **the overhead estimate**: at step 1, after a long sleep that ended more than `_TT_OK` (but not more than
+    `_TT_ERROR`) late, the estimate is LOWERED by half of (lateness − `_TT_OK`/2) … wait: `s` is negative when
+    late, so `overhead − (s + _TT_OK/2)/2` grows; the alarm is then processed -/
+theorem translated_cron_overhead_estimate (P : MtPrims σ T DT B)
+    (next brk : MtLocals T DT → σ → Res (MtLocals T DT) σ) (L : MtLocals T DT) (w : σ)
+    (h1 : L.step_ = 1) (hs : L.short_sleep = false) (hr : L.reset_ = false)
+    (hl : secondsUntil P L.wakeup L.nowt < -ttOk) (hl0 : secondsUntil P L.wakeup L.nowt < 0)
+    (hj : ¬ ratAbs (secondsUntil P L.wakeup L.nowt) > ttError) :
+    mtFor1Body P next brk L w =
+      brk { L with sleeptime := secondsUntil P L.wakeup L.nowt,
+                   diff := ratAbs (secondsUntil P L.wakeup L.nowt),
+                   overhead := L.overhead - (secondsUntil P L.wakeup L.nowt + ttOk / 2) * (1 / 2) } w := by
+  rw [body_is_ref]; unfold refBody refCheck
+  have hz : secondsUntil P L.wakeup L.nowt ≤ 0 := Rat.le_of_lt hl0
+  have hn : ¬ (-ttOk ≤ secondsUntil P L.wakeup L.nowt) := Rat.not_le.mpr hl
+  simp [h1, hs, hr, hl0, hj, hz, hn]
+
+/-! ### (c) `recalc` and `_event_reconfig` -/
+
+/-- `TimeDate.recalc` hands the model's calendar predicate to `set_output` -/
+theorem translated_cron_timedate_recalc_is_pred (cal : Calendar) (c : TDCfg) (now : Nat) :
+    tdRecalc (tdPrims cal) c now = timedatePred cal c now := td_recalc_is_pred cal c now
+
+/-- `TimeSpan.recalc` likewise -/
+theorem translated_cron_timespan_recalc_is_pred (cal : Calendar) (sp : Span) (now : Nat) :
+    tsRecalc (tsPrims cal) sp now = timespanPred cal sp now := ts_recalc_is_pred cal sp now
+
+/-- `TimeDate._event_reconfig`: besides the table calls, in this order: store the new configuration, `reload()`,
+    ONE clock reading, `recalc` with that reading -/
+theorem translated_cron_timedate_reconfig_order (o n : Bool) :
+    (tdReconfig o n).filter (fun a => a matches .storeNew | .reload | .readClock | .recalc _) =
+      [.storeNew, .reload, .readClock, .recalc 0] := by
+  cases o <;> cases n <;> rfl
+
+/-- **a reconfigured TimeDate is registered exactly at its `boundaries`** (end points of the new `times`, and
+    midnight): whatever it was registered for before (anything within the old boundaries), the table calls of
+    `_event_reconfig` – old end points removed first, new ones and midnight added afterwards – never raise and
+    leave it registered at `t` iff `t ∈ boundaries new` -/
+theorem translated_cron_timedate_reconfig_registers_boundaries (old new : TDCfg) (b : Nat) (tb : Table)
+    (h0 : ∀ t, tb.registered t b = true → t ∈ boundaries old) :
+    ∃ ops, actsOps (tdActOps old new b) (tdReconfig old.times.isSome new.times.isSome) = some ops ∧
+      ∀ t, (ops.foldl TOp.apply tb).registered t b = true ↔ t ∈ boundaries new := by
+  let rem := match old.times with | some iv => timeEndpoints iv | none => []
+  let add := match new.times with | some iv => timeEndpoints iv | none => []
+  refine ⟨rem.map (TOp.remove · b) ++ (add.map (TOp.add · b) ++ [TOp.add 0 b]), ?_, fun t => ?_⟩
+  · cases old with
+    | mk ot od ow =>
+    cases new with
+    | mk nt nd nw =>
+      cases ot <;> cases nt <;> simp [tdReconfig, actsOps, tdActOps, rem, add]
+  · rw [registered_reconfig, mem_boundaries]
+    constructor
+    · rintro (h | h | ⟨hn, hr⟩)
+      · exact Or.inl h
+      · exact Or.inr h
+      · rcases (mem_boundaries old t).mp (h0 t hr) with h | h
+        · exact Or.inl h
+        · exact absurd h hn
+    · rintro (h | h)
+      · exact Or.inl h
+      · exact Or.inr (Or.inl h)
+
+/-- `TimeSpan._event_reconfig`: ONE clock reading, taken after the new span is stored; the registration filter
+    and `recalc` use that same reading; `reload()` comes before `recalc` -/
+theorem translated_cron_timespan_reconfig_order :
+    tsReconfig.filter (fun a => a matches .storeNew | .reload | .readClock | .recalc _ | .addFutureEndpoints _) =
+      [.storeNew, .readClock, .addFutureEndpoints 0, .reload, .recalc 0] := rfl
+
+/-- **a reconfigured TimeSpan is registered exactly at the model's `alarmTimes`** for the reading it took: the
+    times of day of the end points that are not before the date of that reading ("future events only"), no
+    midnight -/
+theorem translated_cron_timespan_reconfig_registers_alarm_times (cal : Calendar) (old new : Span)
+    (read : Nat → Nat) (b : Nat) (tb : Table)
+    (h0 : ∀ t, tb.registered t b = true → t ∈ (endpoints old).map (·.tod)) :
+    ∃ ops, actsOps (tsActOps cal old new read b) tsReconfig = some ops ∧
+      ∀ t, (ops.foldl TOp.apply tb).registered t b = true ↔ t ∈ alarmTimes cal (.timespan new) (read 0) := by
+  refine ⟨_, rfl, fun t => ?_⟩
+  simp only [List.append_nil, List.nil_append]
+  rw [registered_after_ops, lastOp_append]
+  have e1 : ((endpoints new).filter fun e =>
+        decide (({ stampOf cal (read 0) with tod := 0 } : Stamp).Le { e with tod := 0 })).map (fun e => TOp.add e.tod b)
+      = (((endpoints new).filter fun e =>
+        decide (({ stampOf cal (read 0) with tod := 0 } : Stamp).Le { e with tod := 0 })).map (·.tod)).map (TOp.add · b) := by
+    simp [List.map_map]
+  have e2 : (endpoints old).map (fun e => TOp.remove e.tod b) = ((endpoints old).map (·.tod)).map (TOp.remove · b) := by
+    simp [List.map_map]
+  rw [e1, e2, lastOp_adds, lastOp_removes]
+  unfold alarmTimes
+  rw [mem_sortDedup]
+  have := h0 t
+  by_cases hm : t ∈ ((endpoints new).filter fun e =>
+        decide (({ stampOf cal (read 0) with tod := 0 } : Stamp).Le { e with tod := 0 })).map (·.tod)
+  · simp only [hm, ↓reduceIte, Option.getD_some, true_iff]
+  · simp only [hm, ↓reduceIte, iff_false]
+    by_cases ho : t ∈ (endpoints old).map (·.tod)
+    · simp [ho]
+    · simp only [ho, ↓reduceIte, Option.getD_none]
+      intro hr; exact ho (this hr)
+
+end Edzed.TrTie
